@@ -355,6 +355,12 @@ func (ex *Exec) contractCall(f *ssa.Function, c *Contract, args []Term, h *Heap,
 	}
 	sc2 := &SpecCtx{ex: cx, pkg: f.Pkg, vars: vars, heap: h, old: pre}
 	for _, e := range c.Ensures {
+		if e.OnlyProp != "" && e.OnlyProp != "assumed" && !q.propActive(e.OnlyProp) {
+			continue
+		}
+		if e.OnlyProp == "assumed" {
+			q.note("ASSUMED CLAUSE of %s: %s", funcKey(f), e.Text)
+		}
 		q.assume(implies(reach, sc2.evalBool(e)))
 	}
 	return rs
